@@ -83,14 +83,18 @@ Section SortStage.
     destruct (DECL i j Hi Hj Hm) as (ic & m & e & Hic & Hap & He & Hrel).
     (* the scan of x's address ends *)
     assert (Hinx : In (nth x ms ([], dummy_line)) ms) by (apply nth_In; rewrite Hlen; apply Hlt; assumption).
-    assert (Hscan : exists ds, scan_deps apropos (map_keys line ms) fuel (fst (nth x ms ([], dummy_line))) = Some ds).
+    assert (Hscan : exists ds, scan_deps apropos (map_keys line ms) fuel (fst (nth x ms ([], dummy_line))) (fst (nth x ms ([], dummy_line))) = Some ds).
     { pose proof Hp as Hp'. rewrite pushes_unfold in Hp'. destruct (acc_some _ _ _ _ _ _ Hp') as [_ Hall].
       assert (Hk : In (fst (nth x ms ([], dummy_line))) (map_keys line ms)) by (apply in_map_keys; apply in_map; assumption).
       destruct (Hall _ Hk) as [l' [Hl' _]]. unfold push_of in Hl'.
-      destruct (scan_deps apropos (map_keys line ms) fuel (fst (nth x ms ([], dummy_line)))) as [ds|];
+      destruct (scan_deps apropos (map_keys line ms) fuel (fst (nth x ms ([], dummy_line))) (fst (nth x ms ([], dummy_line)))) as [ds|];
         [exists ds; reflexivity | discriminate]. }
     destruct Hscan as [ds Hds]. exists ds. split; [assumption|].
     rewrite Hnth in Hds |- *. simpl in Hds |- *. rewrite Pi. rewrite Pj in Hds.
+    assert (Hne : p_path (port_at a i) <> p_path (port_at a j)).
+    { intro Hc. pose proof (find_port_at a i (w_paths a WF) Hi) as F1.
+      pose proof (find_port_at a j (w_paths a WF) Hj) as F2. rewrite Hc in F1.
+      assert (i = j) by congruence. subst j. exact (not_self a WF i Hi Hm). }
     eapply scan_complete; try eassumption.
     rewrite has_key_map_keys. apply existsb_exists.
     exists (l_path (nth y ls dummy_line)). split.
